@@ -13,7 +13,9 @@ ALLOWED_AXIOMS = {'functional_extensionality_dep', 'proof_irrelevance', 'classic
 
 def impl_env(extra=None):
     env = dict(os.environ, PYTHONPATH=REPO, PYTHONHASHSEED='0', NBDIME_VERIF='1',
-               GIT_CONFIG_GLOBAL='/dev/null', GIT_CONFIG_SYSTEM='/dev/null', GIT_CONFIG_NOSYSTEM='1')
+               GIT_CONFIG_GLOBAL='/dev/null', GIT_CONFIG_SYSTEM='/dev/null', GIT_CONFIG_NOSYSTEM='1',
+               JUPYTER_CONFIG_DIR='/nonexistent-nbv/config', JUPYTER_CONFIG_PATH='/nonexistent-nbv/path',
+               JUPYTER_NO_CONFIG='', JUPYTER_PLATFORM_DIRS='0')
     if extra: env.update(extra)
     return env
 
